@@ -210,7 +210,7 @@ ISAR_FRAGMENTS = [
 
 @st.composite
 def isar_inputs(draw):
-    schema = draw(gen.schemas(gen.GenOpts(max_decls=4, big_sizes=False, allow_greedy=False)))
+    schema = draw(gen.schemas(gen.GenOpts(max_decls=4, big_sizes=False, allow_greedy=False, enum_aliases=False)))
     body = [ir.render_isar_decl(d) for d in schema.decls]
     kind = draw(st.sampled_from(['valid', 'fragment', 'fragment', 'drop_attr', 'malformed', 'text_mutation']))
     if kind == 'fragment':
